@@ -13,6 +13,7 @@ import (
 	pk "github.com/Tnze/go-mc/net/packet"
 
 	"verif/ref/refnbt"
+	"verif/ref/refwire"
 	"verif/vm"
 )
 
@@ -506,6 +507,30 @@ func checkForms(c *vm.Ctx, r *vm.Rand) {
 			c.Violation("forms/json-list", fmt.Sprintf("JSON list as a component: err=%v got %+v", err, m), wit())
 		} else {
 			c.Cover("forms.json.list")
+		}
+	}
+	// the JSON wire field (a length-prefixed string holding JSON, used for the login disconnect reason): same three forms
+	for _, f := range []struct {
+		name string
+		js   []byte
+		ok   func(m chat.JsonMessage) bool
+	}{
+		{"string", js, func(m chat.JsonMessage) bool { return m.Text == s }},
+		{"list", arr, func(m chat.JsonMessage) bool { return len(m.Extra) == 2 && m.Extra[0].Text == s && m.Extra[1].Bold }},
+		{"compound", []byte(`{"text":` + string(js) + `,"italic":true}`), func(m chat.JsonMessage) bool { return m.Text == s && m.Italic }},
+	} {
+		var jm chat.JsonMessage
+		var n int64
+		wire := append(refwire.EncVarInt(int32(len(f.js))), f.js...)
+		in := append(append([]byte{}, wire...), 0xde, 0xad)
+		rd := bytes.NewReader(in)
+		if c.Guard("forms/jsonfield-"+f.name, wit, func() { n, err = jm.ReadFrom(rd) }) {
+			continue
+		}
+		if err != nil || !f.ok(jm) || n != int64(len(wire)) || rd.Len() != 2 {
+			c.Violation("forms/jsonfield-"+f.name, fmt.Sprintf("JSON %s in a JsonMessage wire field: err=%v n=%d (field is %d bytes) got %+v", f.name, err, n, len(wire), chat.Message(jm)), wit())
+		} else {
+			c.Cover("forms.jsonfield." + f.name)
 		}
 	}
 	// NBT: bare string
